@@ -237,6 +237,7 @@ def collect_obligations(source, registry, models_cls, contract, prune=True):
     st.ghost["loops"] = contract.loops
     st.ghost["contract"] = contract
     st.ghost["__ex__"] = ex
+    st.ghost["param_objs"] = inputs  # cloned together with the frames: aliasing with locals is preserved
     st.ghost["args"] = a
     pos, kw = [], {}
     fnode = fr.node
@@ -347,6 +348,10 @@ def apply_contract(ex, contract, fr, args, kwargs, st, node, bound_self=None):
         ex.side_obligations.append((f"{cl.name}@{caller.split('.')[-1]}:{getattr(node, 'lineno', 0)}", list(st.pc), cond, ()))
     if contract.callee_hook is not None:
         return contract.callee_hook(ex, a, st, node)
+    if getattr(contract, "partial_hook", None) is not None:
+        r = contract.partial_hook(ex, a, st, node)
+        if r is not None:
+            return r
     out = []
     log0 = len(st.log)
     exc_classes = list(contract.exsures_.keys())
